@@ -43,7 +43,7 @@ _gqa._basic_gqa_rule / gqa_rules   (host_gqa; host opset 23 only: needs Attentio
   constant / with 0 and -1 / built from Shape+Concat; "fold" variant (no expansion, Reshape moves half of the sequence into the head
   dim: shapes still pass the rule's check); Concat axis -2 / 2; Unsqueeze axes 0-d 2 (the only form the pattern literal matches) / 1-D [2] / 0-d -3; mask absent / bool [S,T] / float [S,T] /
   [1,1,S,T]; Attention attrs is_causal absent/0/1, scale, softcap, qk_matmul_output_mode; present key/value Concat outputs also
-  graph outputs or not.
+  graph outputs or not, Reshape output / Shape(present_key)[2:3] as extra graph output.
   NOT enumerated: bfloat16, 3-D (packed-head) inputs, zero-length past, Attention with 4 outputs.
 """
 from __future__ import annotations
@@ -67,7 +67,7 @@ def _dev(rr, g, tag, classes):
     g.features.add(f"{tag}:dev_{dev}")
 
     def dv(kind, normal, others):
-        if dev == kind or (dev == "any" and rr.chance(5)):
+        if (dev == kind and rr.chance(7)) or (dev == "any" and rr.chance(4)):
             return rr.pick(list(others))
         return normal
 
@@ -152,8 +152,8 @@ def host_layer_norm(g):
     n0 = len(g.env)
     g.set_opset(rr.pick([17, 18, 18, 18, 19, 20, 21, 22, 23, 23]))
     g.features.add(f"{tag}:opset_{'17' if g.opset < 18 else '18plus'}")
-    dev, dv = _dev(rr, g, tag, ["reduce", "eps", "eps", "scale", "scale", "form", "extra"])
-    dt = rr.pick([F32, F32, F32, F64, F16])
+    dev, dv = _dev(rr, g, tag, ["reduce", "eps", "eps", "scale", "scale", "form", "extra", "order"])
+    dt = rr.pick([F32, F32, F32, F32, F64, F64, F16])
     g.features.add(f"{tag}:dtype_{dt.name}")
     rank = rr.pick([2, 3, 3, 4])
     shape = tuple(rr.pick([1, 2, 3, 4]) for _ in range(rank - 1)) + (rr.pick([2, 3, 4, 4]),)
@@ -184,7 +184,7 @@ def host_layer_norm(g):
     if not var:
         return None
     eps = _eps(g, rr, dt, rank, shape[-1], dev, tag)
-    swap = rr.chance(3)
+    swap = dv("order", False, [True])
     ve = g.emit("Add", [eps, var[0]] if swap else [var[0], eps])
     if not ve:
         return None
@@ -199,11 +199,11 @@ def host_layer_norm(g):
         inv = g.emit("Reciprocal", [std[0]])
         if not inv:
             return None
-        norm = g.emit("Mul", [inv[0], devn[0]] if rr.chance(3) else [devn[0], inv[0]])
+        norm = g.emit("Mul", [inv[0], devn[0]] if dv("order", False, [True]) else [devn[0], inv[0]])
     if not norm:
         return None
     scale = _scale(g, rr, dt, shape, dv, tag)
-    swap2 = rr.chance(3)
+    swap2 = dv("order", False, [True])
     g.features.add(f"{tag}:order_{'swapped' if swap or swap2 else 'pattern'}")
     out = g.emit("Mul", [scale, norm[0]] if swap2 else [norm[0], scale])
     if not out:
@@ -212,7 +212,7 @@ def host_layer_norm(g):
     if rr.chance(3):
         bshape = rr.pick([(shape[-1],), (shape[-1],), (), tuple(shape), tuple(shape[-2:])])
         b = g.add_input(dt, bshape) if rr.chance(5) else g.const_array(make_array(g.seed(), dt, bshape), how=rr.pick(["node", "init"]))
-        ob = g.emit("Add", [b, out[0]] if rr.chance(3) else [out[0], b])
+        ob = g.emit("Add", [b, out[0]] if dv("order", False, [True]) else [out[0], b])
         g.features.add(f"{tag}:with_bias_add")
         if ob:
             outs = list(ob)
@@ -231,7 +231,7 @@ def host_layer_norm_bias(g):
     rr = _Rng(g)
     n0 = len(g.env)
     g.set_opset(rr.pick([17, 17, 18, 19, 20, 21, 22, 23]))
-    dev, dv = _dev(rr, g, tag, ["axis", "axis", "bias", "bias", "bias", "inputs", "outputs"])
+    dev, dv = _dev(rr, g, tag, ["axis", "axis", "bias", "bias", "bias", "inputs", "outputs", "order"])
     dt = rr.pick([F32, F32, F32, F64, F16])
     g.features.add(f"{tag}:dtype_{dt.name}")
     rank = rr.pick([2, 3, 3, 4])
@@ -268,7 +268,7 @@ def host_layer_norm_bias(g):
     bshape = opts[kind]
     bsrc = rr.pick(["input", "input", "node", "init"])
     b = g.add_input(dt, bshape) if bsrc == "input" else g.const_array(make_array(g.seed(), dt, bshape), how=bsrc)
-    swap = rr.chance(4)
+    swap = dv("order", False, [True])
     g.features.add(f"{tag}:order_{'swapped' if swap else 'pattern'}")
     out = g.emit("Add", [b, ln[0]] if swap else [ln[0], b])
     if not out:
@@ -288,7 +288,7 @@ def host_rms_norm(g, prefer=None):
     n0 = len(g.env)
     g.set_opset(rr.pick([17, 18, 19, 20, 21, 22, 23, 23, 23, 23, 23]))
     g.features.add(f"{tag}:opset_{g.opset if g.opset in (17, 23) else '18to22'}")
-    dev, dv = _dev(rr, g, tag, ["reduce", "eps", "eps", "scale", "scale", "form", "cast", "cast", "extra"])
+    dev, dv = _dev(rr, g, tag, ["reduce", "eps", "eps", "scale", "scale", "form", "cast", "cast", "extra", "order"])
     xdt = rr.pick([F32, F32, F32, F16, F64])
     rank = rr.pick([1, 2, 3, 3, 4])
     shape = tuple(rr.pick([1, 2, 3, 4]) for _ in range(rank - 1)) + (rr.pick([2, 3, 4, 4]),)
@@ -315,7 +315,7 @@ def host_rms_norm(g, prefer=None):
     if not ms:
         return None
     eps = _eps(g, rr, cdt, rank, shape[-1], dev, tag)
-    mse = g.emit("Add", [eps, ms[0]] if rr.chance(2) else [ms[0], eps])
+    mse = g.emit("Add", [eps, ms[0]] if dv("order", False, [True]) else [ms[0], eps])
     if not mse:
         return None
     rms = g.emit("Sqrt", [mse[0]])
@@ -329,7 +329,7 @@ def host_rms_norm(g, prefer=None):
         rec = g.emit("Reciprocal", [rms[0]])
         if not rec:
             return None
-        norm = g.emit("Mul", [rec[0], xc] if rr.chance(2) else [xc, rec[0]])
+        norm = g.emit("Mul", [rec[0], xc] if dv("order", False, [True]) else [xc, rec[0]])
     if not norm:
         return None
     cast_out = dv("cast", xdt if cast_in is not None and cast_in != xdt else None, [F32, F16, F64, None])
@@ -372,7 +372,7 @@ def host_rotary(g):
     rr = _Rng(g)
     g.set_opset(rr.pick([13, 14, 17, 18, 19, 20, 21, 22, 23, 23, 23, 23, 23]))
     g.features.add(f"{tag}:opset_{'23' if g.opset == 23 else 'lt23'}")
-    dev, dv = _dev(rr, g, tag, ["freqs", "freqs", "slice", "slice", "axes", "sym", "dtype", "halves", "extra"])
+    dev, dv = _dev(rr, g, tag, ["freqs", "freqs", "slice", "slice", "axes", "sym", "dtype", "halves", "extra", "order"])
     dt = dv("dtype", rr.pick([F32, F32, F32, F16]), [F64])
     g.features.add(f"{tag}:dtype_{dt.name}")
     b, h, s = rr.pick([1, 2, 2]), rr.pick([1, 2, 3]), rr.pick([1, 2, 3])
@@ -437,7 +437,7 @@ def host_rotary(g):
         rot = n and g.emit("Concat", [x2[0], n[0]], axis=rax)
     if not rot:
         return None
-    sw = [rr.chance(2) for _ in range(3)]
+    sw = [dv("order", False, [True]) for _ in range(3)]
     g.features.add(f"{tag}:order_{'swapped' if any(sw) else 'pattern'}")
     a = g.emit("Mul", [cos4[0], x] if sw[0] else [x, cos4[0]])
     bb = g.emit("Mul", [sin4[0], rot[0]] if sw[1] else [rot[0], sin4[0]])
@@ -646,7 +646,7 @@ def host_gqa(g):
     if not att:
         return None
     outs = list(att)
-    ok = dv("outputs", rr.pick(["none", "both"]), ["key_only", "reshaped"])
+    ok = dv("outputs", rr.pick(["none", "both"]), ["key_only", "reshaped", "total_len", "total_len"])
     g.features.add(f"{tag}:extra_outputs_{ok}")
     if ok == "both":
         outs += [kb[0], vb[0]]
@@ -654,4 +654,9 @@ def host_gqa(g):
         outs += [kb[0]]
     elif ok == "reshaped":
         outs += [kb[1]]
+    elif ok == "total_len":
+        # the total sequence length read off the concatenated key stays live (models use it to build masks / position ids)
+        tl = g.emit("Shape", [kb[0]], start=2, end=3)
+        if tl:
+            outs += [tl[0]]
     return outs
